@@ -10,6 +10,7 @@ package sequencer
 //@ requires b.TimeSig[1] != 0
 // (16 bit arithmetic: numerator*32 is at most 8160, no wrap)
 //@ ensures [P:C20] (uint16(b.TimeSig[0]) * 32) / uint16(b.TimeSig[1]) <= 255 ==> uint16(result) == (uint16(b.TimeSig[0]) * 32) / uint16(b.TimeSig[1])
+//@ ensures [H] result == uint8((uint16(b.TimeSig[0]) * 32) / uint16(b.TimeSig[1]))
 
 // an event starts at its bar start plus its position and ends after its duration (0 = no end)
 //@ func (*Event).AbsTicks
@@ -17,3 +18,23 @@ package sequencer
 //@ ensures [P:C20] start == b.AbsTicks + int64(t32of(uint16(ticks)) * uint32(e.Pos))
 //@ ensures [P:C20] e.Duration == 0 ==> end == 0
 //@ ensures [P:C20] e.Duration != 0 ==> end == start + int64(t32of(uint16(ticks)) * uint32(e.Duration))
+
+// bars are laid end to end: the first starts at tick 0, every other where the one before it ends, and the song
+// ends where the last bar ends (bar length in ticks = length in thirty-second notes x ticks of a thirty-second)
+//@ macro barTicks(b, q) = barTk(b.TimeSig[0], b.TimeSig[1], uint16(q))
+//@ func (*Song).SetBarAbsTicks
+//@ requires forall i int :: 0 <= i && i < len(s.bars) ==> (s.bars[i] != nil && s.bars[i].TimeSig[1] != 0)
+// (bars are numbered by their index, as AddBar / Renumber leave them; in particular no bar occurs twice)
+//@ requires forall i int :: 0 <= i && i < len(s.bars) ==> s.bars[i].Number == i
+//@ modifies any(Bar).AbsTicks, s.lastTick
+//@ ensures [P:C20] len(s.bars) > 0 ==> s.bars[0].AbsTicks == 0
+//@ ensures [P:C20] forall i int :: 1 <= i && i < len(s.bars) ==> s.bars[i].AbsTicks == s.bars[i-1].AbsTicks + barTicks(s.bars[i-1], s.Ticks)
+//@ ensures [P:C20] len(s.bars) == 0 ==> s.lastTick == 0
+//@ ensures [P:C20] len(s.bars) > 0 ==> s.lastTick == s.bars[len(s.bars)-1].AbsTicks + barTicks(s.bars[len(s.bars)-1], s.Ticks)
+//@ loop 0 invariant -1 <= rangeindex && rangeindex < len(s.bars) && s.bars == old(s.bars) && s.Ticks == old(s.Ticks)
+//@ loop 0 invariant forall i int :: 0 <= i && i < len(s.bars) ==> (s.bars[i] != nil && s.bars[i].Number == i && s.bars[i].TimeSig == old(s.bars[i].TimeSig))
+//@ loop 0 invariant rangeindex >= 0 ==> s.bars[0].AbsTicks == 0
+//@ loop 0 invariant forall i int :: 1 <= i && i <= rangeindex ==> s.bars[i].AbsTicks == s.bars[i-1].AbsTicks + barTicks(s.bars[i-1], s.Ticks)
+//@ loop 0 invariant rangeindex == -1 ==> absticks == 0
+//@ loop 0 invariant rangeindex >= 0 ==> absticks == s.bars[rangeindex].AbsTicks + barTicks(s.bars[rangeindex], s.Ticks)
+//@ loop 0 decreases len(s.bars) - rangeindex
